@@ -186,7 +186,7 @@ pub fn rec_optval(args: &Args) {
         out.ev(json!({"op": "str_dec", "in": jbytes(&b), "out": o}));
     }
     // typed builder sequences: the typed setters/getters on a message, element by element
-    let nums: [u16; 5] = [6, 12, 14, 60, 2000];
+    let nums: [u16; 6] = [6, 12, 14, 60, 2000, 0];
     for ep in 0..(if thorough { 3000 } else { 400 }) {
         out.ev(json!({"op": "reset"}));
         let mut p = Packet::new();
@@ -203,7 +203,10 @@ pub fn rec_optval(args: &Args) {
                     ("add_option_uint", json!({"num": num, "w": w, "digits": digits(x, w as usize)}))
                 }
                 2 => {
-                    let s: String = (0..r.below(5)).map(|_| *r.pick(&['a', 'é', '/', '😁', ' '])).collect();
+                    let mut s: String = (0..r.below(5)).map(|_| *r.pick(&['a', 'é', '/', '😁', ' ', '\u{FEFF}', '\u{0}', '\u{D7FF}', '\u{E000}', '\u{10FFFF}'])).collect();
+                    if r.chance(1, 12) {
+                        s = "é😁".repeat(60 + r.below(10) as usize); // longer than 255 bytes
+                    }
                     p.add_option_as(CoapOption::from(num), OptionValueString(s.clone()));
                     ("add_option_str", json!({"num": num, "v": jbytes(s.as_bytes())}))
                 }
